@@ -96,7 +96,7 @@ pub fn run(r: &mut Report) {
                 other => out.push_str(&other.to_string()),
             }
         }
-        for (name, k, _) in pubs.iter() {
+        let reference_id = |k: &PublicKey| -> String {
             let js = serde_json::to_value(k).unwrap();
             let mut pre = serde_json::Map::new();
             if let Some(h) = js.get("keyid_hash_algorithms") { if !h.is_null() { pre.insert("keyid_hash_algorithms".into(), h.clone()); } }
@@ -105,9 +105,43 @@ pub fn run(r: &mut Report) {
             pre.insert("scheme".into(), js["scheme"].clone());
             let mut text = String::new();
             olpc(&serde_json::Value::Object(pre), &mut text);
-            let want: String = ring::digest::digest(&ring::digest::SHA256, text.as_bytes()).as_ref().iter().map(|b| format!("{:02x}", b)).collect();
+            ring::digest::digest(&ring::digest::SHA256, text.as_bytes()).as_ref().iter().map(|b| format!("{:02x}", b)).collect() };
+        for (name, k, _) in pubs.iter() {
+            let want = reference_id(k);
             let got = serde_json::to_value(k.key_id()).unwrap().as_str().unwrap().to_string();
             r.case("key-id-is-sha256-of-canonical-description", json!({"key": name}), &want, got.clone(), got == want);
+        }
+        // the same key material declared under every scheme, and with every hash-algorithm list, one after the other in this
+        // process: each construction's id is the hash of ITS OWN description (the id is intrinsic, not remembered)
+        for (mat, spki) in [("ed25519", "/repo/tests/ed25519/ed25519-1.spki.der"), ("ecdsa", "/repo/tests/ecdsa/ec.spki.der"), ("rsa2048", "/repo/tests/rsa/rsa-2048.spki.der"), ("rsa3072", "/verif/replay/fixtures/rsa-3072.spki.der")] {
+            let der = match std::fs::read(spki) { Ok(d) => d, Err(_) => continue };
+            let mut seen: Vec<(String, String)> = vec![];
+            let mut bad: Vec<String> = vec![];
+            for round in 0..2 {
+                let mut schemes = vec![SignatureScheme::RsaSsaPssSha256, SignatureScheme::RsaSsaPssSha512, SignatureScheme::Ed25519, SignatureScheme::EcdsaP256Sha256, SignatureScheme::Unknown("x".into())];
+                if round == 1 { schemes.reverse(); }
+                for sch in schemes {
+                    let base = no_panic(|| PublicKey::from_spki(&der, sch.clone())).ok().and_then(|x| x.ok());
+                    let via_json = |edit: &dyn Fn(&mut serde_json::Value)| -> Option<PublicKey> { base.as_ref().and_then(|k| { let mut js = serde_json::to_value(k).ok()?; edit(&mut js);
+                        no_panic(|| serde_json::from_str::<PublicKey>(&js.to_string())).ok().and_then(|x| x.ok()) }) };
+                    let pem_text = pem::encode(&pem::Pem::new("PUBLIC KEY", der.clone()));
+                    let built = vec![("from_spki", base.clone()), ("from_pem_spki", no_panic(|| PublicKey::from_pem_spki(&pem_text, sch.clone())).ok().and_then(|x| x.ok())),
+                        ("json", via_json(&|_js| {})), ("json, keyid_hash_algorithms [sha512]", via_json(&|js| { js["keyid_hash_algorithms"] = json!(["sha512"]); })),
+                        ("json, no keyid_hash_algorithms", via_json(&|js| { js.as_object_mut().unwrap().remove("keyid_hash_algorithms"); }))];
+                    for (how, k) in built {
+                        if let Some(k) = k {
+                            let (want, got) = (reference_id(&k), serde_json::to_value(k.key_id()).unwrap().as_str().unwrap().to_string());
+                            if want != got && bad.len() < 4 { bad.push(format!("{:?} via {}: id {} but its description hashes to {}", sch, how, got, want)); }
+                            let mut d = serde_json::to_value(&k).unwrap(); d.as_object_mut().unwrap().remove("keyid");
+                            let _ = how; seen.push((d.to_string(), got));
+                        }
+                    }
+                }
+            }
+            // different descriptions never share an id
+            let mut by_id: std::collections::HashMap<String, String> = std::collections::HashMap::new();
+            for (d, id) in &seen { if let Some(prev) = by_id.get(id) { if prev != d && bad.len() < 6 { bad.push(format!("{} and {} share id {}", prev, d, id)); } } else { by_id.insert(id.clone(), d.clone()); } }
+            r.case("same-material-every-scheme-in-sequence", json!({"material": mat, "constructions": seen.len()}), "every id is the hash of its own description; different descriptions, different ids", format!("{:?}", bad), bad.is_empty() && !seen.is_empty());
         }
     }
     // RFC 8410 ed25519 SPKI (AlgorithmIdentifier without parameters) must be importable
